@@ -7,6 +7,9 @@ mod c16wire;
 mod c18;
 mod c10;
 mod c09;
+mod c14;
+mod hist;
+mod c03;
 
 use engine::Ctx;
 
@@ -59,6 +62,10 @@ fn main() {
         ("C10", Some(p)) => c10::replay(&ctx, p),
         ("C09", None) => c09::run(&ctx),
         ("C09", Some(p)) => c09::replay(&ctx, p),
+        ("C14", None) => c14::run(&ctx),
+        ("C14", Some(p)) => c14::replay(&ctx, p),
+        ("C03", None) => c03::run(&ctx),
+        ("C03", Some(p)) => c03::replay(&ctx, p),
         ("C16", None) => c16::run(&ctx),
         ("C16", Some(p)) => c16::replay(&ctx, p),
         _ => {
